@@ -458,6 +458,29 @@ def run_config(item):
         t.outcomes[f"run:H-equal:{method}:{'all-channels' if ref is None else 'ordered-subset' if list(ref) == sorted(ref) else 'permuted-subset'}"] += 1
         if idx % 29 == 0:
             t.sample({"part": "run", "l": l, "ref_ind": ref, "br": br, "Ndat": Nd, "method": method, "H_shape": list(H.shape)})
+    # the SAME algorithm object bound to other records of the same shape (re-added to another setup) and run again: the
+    # matrix must be the one of the records bound now (no Hankel matrix kept from an earlier run of the object or the class)
+    data2 = payload.normal(seed, f"c12/run2/{l}/{Nd}", (Nd, l))
+    try:
+        ss2 = SingleSetup(data2.copy(), fs=10.0)
+        ss2.add_algorithms(alg)
+        ss2.run_by_name("a")
+        H2 = np.asarray(alg.result.H)
+    except Exception as e:
+        t.violation(f"raises:{type(e).__name__}:rerun:{method}", f"{method} second run of the same algorithm object on other records raised {type(e).__name__}: {e}", case)
+        return t
+    Y2 = data2.T
+    want2 = _hank(Y2, Y2 if ref is None else Y2[list(ref), :], br, method)
+    t.evaluations += 2
+    t.transitions += 1
+    t.validated += 1
+    if not (H2.shape == want2.shape and bool(np.max(np.abs(H2 - want2)) <= 1e-13 * np.max(np.abs(want2)))):
+        t.violation(f"rerun:H-differs:{method}",
+                    f"{method} l={l} ref_ind={ref} br={br} Ndat={Nd}: after re-adding the same algorithm object to a setup with other records of the "
+                    f"same shape and running it again, result.H is not build_hank of the records bound now"
+                    + (" (it still equals the matrix of the first run)" if H2.shape == H.shape and np.array_equal(H2, H) else ""), case)
+    else:
+        t.outcomes[f"rerun:H-equal:{method}"] += 1
     return t
 
 
@@ -551,7 +574,7 @@ def explore(ctx):
                 "bilin:additive-in-data:ok", "bilin:additive-in-reference:ok", "bilin:homogeneous-in-data:ok",
                 "bilin:homogeneous-in-reference:ok", "bilin:homogeneous-jointly:ok", "dat:gram-equal",
                 "run:H-equal:cov_mm:permuted-subset", "run:H-equal:cov_R:permuted-subset", "run:H-equal:dat:permuted-subset",
-                "run:H-equal:dat:all-channels")
+                "run:H-equal:dat:all-channels", "rerun:H-equal:cov_mm", "rerun:H-equal:cov_R", "rerun:H-equal:dat")
     if not any(k.startswith("loop:equal:cov_mm") for k in ctx.tally.outcomes):
         ctx.require("loop:equal:cov_mm")
     if not any(k.startswith("loop:equal:cov_R") for k in ctx.tally.outcomes):
